@@ -162,6 +162,24 @@ fn g_ip_headers(rng: &mut Prng) -> Vec<u8> {
         let i = rng.usize_below(b.len().min(60));
         b[i] = rng.u8_corner();
     }
+    // C06: "a slice that holds the announced packet" — cut to the announced size
+    if !b.is_empty() {
+        match b[0] >> 4 {
+            4 if b.len() >= 4 => {
+                let t = ((b[2] as usize) << 8) | b[3] as usize;
+                if t <= b.len() {
+                    b.truncate(t);
+                }
+            }
+            6 if b.len() >= 6 => {
+                let p = ((b[4] as usize) << 8) | b[5] as usize;
+                if 40 + p <= b.len() {
+                    b.truncate(40 + p);
+                }
+            }
+            _ => {}
+        }
+    }
     b
 }
 fn g_udp(rng: &mut Prng) -> Vec<u8> {
